@@ -492,7 +492,7 @@ def reader_entry_rule(repo: Repo, rep, P: str):
                     cname = norm(n.func).split(".")[-1]
                     in_readers_pkg = sf.modname.startswith("rv.readers")
                     if cname == "InitialReader":
-                        if sf.modname == "rv.readers.reader" and qn == "read_sunvox_file":
+                        if sf.modname == "rv.readers.reader" and (qn == "read_sunvox_file" or qn.startswith("read_sunvox_file.")):
                             rep.ok(f"{P}.R4", f"{rel}:{qn}", norm(n), "top-level reader built inside the guarded entry")
                         elif sf.modname == "rv.readers.reader" and qn.startswith("_") and not qn.startswith("__") \
                                 and _reaches_only_from(repo, sf, qn, "read_sunvox_file"):
